@@ -374,6 +374,7 @@ def inline_new_helpers(trees: Dict[str, Tuple[str, ast.Module]], known: Optional
     log: List[str] = []
     if known is None:
         return log
+    _ALL_TREES[:] = [t for _rel, t in trees.values()]
     for _round in range(3):
         changed = False
         for mname, (rel, tree) in trees.items():
@@ -389,9 +390,22 @@ def inline_new_helpers(trees: Dict[str, Tuple[str, ast.Module]], known: Optional
                 outside = [(om, ot) for om, (orel, ot) in trees.items() if om != mname
                            and any(isinstance(n, (ast.Name, ast.Attribute)) and getattr(n, "id", getattr(n, "attr", None)) == fn.name for n in ast.walk(ot))]
                 importers = []
-                if outside:
-                    if cls is not None:
+                subclass_trees = []
+                if outside and cls is not None:
+                    # a method helper of a base class, called as self.<helper>() from subclasses in sibling modules
+                    if not _unique_name(tree, fn.name):
                         continue
+                    good = True
+                    for om, ot in outside:
+                        if any(isinstance(n, ast.Name) and n.id == fn.name for n in ast.walk(ot)):
+                            good = False
+                        for n in ast.walk(ot):
+                            if isinstance(n, ast.Attribute) and n.attr == fn.name and not (isinstance(n.value, ast.Name) and n.value.id == "self"):
+                                good = False
+                        subclass_trees.append(ot)
+                    if not good:
+                        continue
+                elif outside:
                     for om, ot in outside:
                         imp = [n for n in ast.walk(ot) if isinstance(n, ast.ImportFrom) and (n.module or "").split(".")[-1] == mname.split(".")[-1]
                                and any(al.name == fn.name and al.asname is None for al in n.names)]
@@ -401,7 +415,7 @@ def inline_new_helpers(trees: Dict[str, Tuple[str, ast.Module]], known: Optional
                         importers.append((ot, imp[0]))
                     if importers is None:
                         continue
-                scopes = [tree] + [ot for ot, _ in importers]
+                scopes = [tree] + [ot for ot, _ in importers] + subclass_trees
                 if _expression_helper(fn) is not None and _inline_expression_helper(fn, cls, scopes, tree):
                     holder = cls.body if cls is not None else tree.body
                     holder[:] = [x for x in holder if x is not fn]
@@ -413,7 +427,7 @@ def inline_new_helpers(trees: Dict[str, Tuple[str, ast.Module]], known: Optional
                 refs = [n for t in scopes for n in ast.walk(t) if (isinstance(n, ast.Name) and n.id == fn.name and cls is None) or (isinstance(n, ast.Attribute) and n.attr == fn.name and cls is not None)]
                 sites = []
                 ok = True
-                all_callers = list(qn.items()) + [it for ot, _ in importers for it in qualnames(ot).items()]
+                all_callers = list(qn.items()) + [it for ot in scopes[1:] for it in qualnames(ot).items()]
                 for caller_q, (caller, ccls) in all_callers:
                     if caller is fn:
                         if any(isinstance(n, ast.Call) and _matches(n, fn.name, cls) for n in ast.walk(fn)):
@@ -511,9 +525,10 @@ def _inline_expression_helper(fn, cls, scopes, home) -> bool:
     if cls is not None:
         # method helpers: only calls from the class itself or module-local subclasses (resolved by name)
         owners = {}
-        for c in [n for n in home.body if isinstance(n, ast.ClassDef)]:
-            for n in ast.walk(c):
-                owners[id(n)] = c
+        for t in scopes:
+            for c in [n for n in t.body if isinstance(n, ast.ClassDef)]:
+                for n in ast.walk(c):
+                    owners[id(n)] = c
         for c in calls:
             oc = owners.get(id(c))
             if oc is None or not (oc is cls or (_inherits(home, oc, cls) and _unique_name(home, fn.name))):
@@ -554,9 +569,17 @@ def _inline_expression_helper(fn, cls, scopes, home) -> bool:
     return done == len(plans)
 
 
+_ALL_TREES: List[ast.Module] = []
+
+
 def _inherits(tree: ast.Module, sub: ast.ClassDef, base: ast.ClassDef) -> bool:
-    """Is `base` among the (module-local, by name) ancestors of `sub`?"""
-    classes = {n.name: n for n in tree.body if isinstance(n, ast.ClassDef)}
+    """Is `base` among the ancestors of `sub`?  Bases are resolved by name, in the module first, then in the package."""
+    classes = {}
+    for t in _ALL_TREES:
+        for n in t.body:
+            if isinstance(n, ast.ClassDef):
+                classes.setdefault(n.name, n)
+    classes.update({n.name: n for n in tree.body if isinstance(n, ast.ClassDef)})
     seen, todo = set(), [sub]
     while todo:
         c = todo.pop()
@@ -573,8 +596,9 @@ def _inherits(tree: ast.Module, sub: ast.ClassDef, base: ast.ClassDef) -> bool:
 
 
 def _unique_name(tree: ast.Module, name: str) -> bool:
-    """Only one function of that name in the module (so self.<name> can only mean it)."""
-    return sum(1 for n in ast.walk(tree) if isinstance(n, FuncDef) and n.name == name) == 1
+    """Only one function of that name in the package (so self.<name> can only mean it)."""
+    trees = _ALL_TREES if any(t is tree for t in _ALL_TREES) else [tree]
+    return sum(1 for t in trees for n in ast.walk(t) if isinstance(n, FuncDef) and n.name == name) == 1
 
 
 def _replace_stmt(root: ast.AST, old: ast.stmt, new: List[ast.stmt]) -> bool:
